@@ -775,3 +775,43 @@ Proof.
     assert (X2 : Qle_bool (x + y) 1 = true) by (apply Qle_bool_iff; lra).
     simpl. rewrite X0, X1, X2. simpl. discriminate.
 Qed.
+
+(** * The flattened view against the n-d model of to_compressed / from_compressed (FV.Mask)
+
+    [sel] on the raveled data IS [Mask.to_compressed] of the n-d array, and [unsel] IS the raveled
+    result of [Mask.from_compressed]; "raveled" = in the grid's flattening order [o]. *)
+From FV Require Mask.
+From FVP Require Mask_proofs.
+
+Lemma sel_is_to_compressed : forall A (a : arr A) (m : arr bool) (o : order) w arg,
+  Mask_proofs.uses_mask w arg m ->
+  Mask.to_compressed a w o arg = sel (Some (ravel o m)) (ravel o a).
+Proof. intros. rewrite (Mask_proofs.to_compressed_bits _ a m o w arg); auto. Qed.
+
+Lemma sel_is_to_compressed_nomask : forall A (a : arr A) (o : order) w arg,
+  Mask_proofs.uses_no_mask w arg ->
+  Mask.to_compressed a w o arg = sel None (ravel o a).
+Proof. intros. rewrite Mask_proofs.to_compressed_nomask; auto. Qed.
+
+Lemma scatter_map : forall X Y (f : X -> Y) keep vals d,
+  map f (scatter keep vals d) = scatter keep (map f vals) (f d).
+Proof.
+  intros X Y f. induction keep as [|k keep IH]; intros vals d; simpl; [reflexivity|].
+  destruct k; [destruct vals|]; simpl; rewrite IH; reflexivity.
+Qed.
+
+Definition cell_of_opt {A : Type} (c : option A) : cell A :=
+  match c with Some v => CVal v | None => CMasked end.
+
+Lemma unsel_is_from_compressed : forall A (vals : list A) sh (o : order) (tm : arr bool) kw,
+  ashape tm = sh ->
+  exists d, Mask.from_compressed vals sh o (Mask.MBits tm) kw = Mask.FcMasked d (Some tm) /\
+            ashape d = sh /\
+            map cell_of_opt (ravel o d) = unsel (Some (ravel o tm)) (map CVal vals).
+Proof.
+  intros A vals sh o tm kw Hs. unfold Mask.from_compressed. eexists. split; [reflexivity|].
+  split; [reflexivity|].
+  rewrite ravel_of_list.
+  - simpl. rewrite scatter_map, map_map. reflexivity.
+  - rewrite scatter_length, map_length, ravel_length, Hs. reflexivity.
+Qed.
